@@ -161,6 +161,11 @@ func altKey(sh *shape, key string, round int) string {
 		}
 		return "rsaA"
 	}
+	if sh.PType == "msi" && round == 0 {
+		// an earlier signature of more than 4 KiB: its stream lives in regular
+		// sectors, the one that replaces it in the mini stream
+		return "rsaAbig"
+	}
 	return []string{"p256B", "rsaB"}[round%2]
 }
 
